@@ -4,8 +4,8 @@ set -u
 ID=$1; T=${2:-}
 nn=$(echo $ID | tr 'C' 'c')
 export GOFLAGS=-mod=mod GOPROXY=off; unset GOWORK GOTOOLCHAIN GOSUMDB
-if [ -f /tmp/hv/$ID/REPORT.md ]; then cp /tmp/hv/$ID/REPORT.md /verif/reports/hardening/$ID-round2.md; echo "report copied";
-elif [ -n "$T" ]; then python3 /verif/tools/savereport.py "$T" /verif/reports/hardening/$ID-round2.md; fi
+if [ -f /tmp/hv/$ID/REPORT.md ]; then cp /tmp/hv/$ID/REPORT.md /verif/reports/hardening/$ID-${ROUND:-round4}.md; echo "report copied";
+elif [ -n "$T" ]; then python3 /verif/tools/savereport.py "$T" /verif/reports/hardening/$ID-${ROUND:-round4}.md; fi
 # remove files of this property that the agent deleted
 for f in /verif/checker/${nn}*.go; do b=$(basename $f); [ -f /tmp/hv/$ID/verif/checker/$b ] || { echo "removed by agent: $b"; rm $f; }; done
 cp /tmp/hv/$ID/verif/checker/${nn}*.go /verif/checker/
